@@ -1,5 +1,5 @@
 """C19 — description/JSON round trip loses nothing that affects output."""
-from core import enc, q, J_equal
+from core import enc, q, J_equal, dec_val
 from gen import SeqGen, NAME_POOL
 from props.c20 import seg_table, _same_arrays
 
@@ -76,6 +76,9 @@ def case(g, tier, ci):
         N = r.randint(6, 30)
         ops = sg.element("a", SR, N, chans, raw_p=0.0, kinds=KINDS, flags_p=0.6, nseg=(1, 4))
         spice(g, ops)
+        if ci % 2 == 0:
+            # the original has been inspected before it is written (the getters run the validation)
+            ops += [{"op": r.choice(["el.SR", "el.points", "el.duration"]), "id": "a"}]
         return ops + observe("el", "a", "b")
     ops, info = sg.sequence("a", npos=(1, 3), nch=(1, 3), SR=SR, raw_p=0.0, kinds=KINDS, flags_p=0.4, delays_p=0.5,
                             filters_p=0.5, sub_p=0.0, seq_p=0.0, waits=0.2, amp=r.choice([20, 30.5]), chan_pool=[1, 2, 3, 4, 11],
@@ -90,6 +93,20 @@ def case(g, tier, ci):
                 ops.append({"op": "sq.setSeq", "id": "a", "pos": p, "field": fld, "v": v})
     if r.random() < 0.3:
         ops.append({"op": "sq.setName", "id": "a", "name": "myseq"})
+    if ci % 3 == 0 and info["els"]:
+        # an element edited in place after it was added: every channel's first ordinary segment gets one more sample
+        pos = sorted(info["els"])[0]
+        eid = info["els"][pos]
+        edits = []
+        for a in [o for o in ops if o["op"] == "el.addBP" and o["id"] == eid]:
+            bops = [o for o in ops if o["op"] == "bp.insert" and o["id"] == a["bp"]]
+            hit = next(((nm, o) for (nm, fk), o in zip(seg_table(bops), bops) if fk != "waituntil" and o.get("dur") is not None), None)
+            if hit is None or any(o["fn"] == "waituntil" for o in bops):
+                edits = []
+                break
+            edits.append({"op": "sq.elChangeDur", "id": "a", "pos": pos, "ch": a["ch"], "name": hit[0],
+                          "dur": enc(float(dec_val(hit[1]["dur"])) + 1 / SR), "all": False})
+        ops += edits
     return ops + observe("sq", "a", "b")
 
 
